@@ -150,7 +150,9 @@ def observe_import(chk: Check, docs: list[dict], label: str) -> list[dict]:
             c = classes.get(n)
             fields = []
             if c and c.get("kind") == "dataclass":
-                fields = [[f["wire"], bool(f["required"]), norm_kind(f["kind"], classes, declared)] for f in c["fields"]]
+                # a document that names its property keys (doc["keys"]) is judged in the p<i> vocabulary of Docs.tla
+                inv = {v: f"p{k}" for k, v in (d.get("keys") or {}).items()}
+                fields = [[inv.get(f["wire"], f["wire"]), bool(f["required"]), norm_kind(f["kind"], classes, declared)] for f in c["fields"]]
                 doc0 = c.get("doc", "")
                 info[n] = {"circ": doc0.startswith("[Circular reference"), "depthph": doc0.startswith("[Maximum recursion"), "unres": False, "selfstub": doc0.startswith("[Self-referencing"), "path": doc0}
             cz = CAUSES.get(doc_key(d), {"stored": {}, "cut": []})
@@ -237,7 +239,11 @@ def judge(chk: Check, traces: list[dict], label: str) -> None:
                     if clause == "C02.kind":
                         obs = {f[0]: f[2] for f in t["models"][n]["fields"]}
                         loc["observed"] = sorted({re.sub(r"(ref\??|obj):\w+", r"\1:*", obs.get(k, "")) for k in keys})
-                chk.fail(clause, loc, {"doc": {"order": scen["order"], "edges": scen["edges"]}, "schema": n, "keys": keys, "level": t["level"]}, f"schema {n} keys {keys} info {info}")
+                        if scen.get("keys"):
+                            # named (colliding) keys: is the failing property annotated exactly like its sibling?
+                            loc["keys"] = "collide"
+                            loc["typed_as_sibling"] = all(any(o != k and ov == obs.get(k) for o, ov in obs.items() if o != "id") for k in keys)
+                chk.fail(clause, loc, {"doc": {"order": scen["order"], "edges": scen["edges"], **({"keys": scen["keys"]} if scen.get("keys") else {})}, "schema": n, "keys": keys, "level": t["level"]}, f"schema {n} keys {keys} info {info}")
     t = traces[len(traces) // 2]
     chk.sample({"family": label, "doc": t["doc"], "observed": t["models"]})
 
@@ -271,6 +277,15 @@ def run(chk: Check) -> None:
             # quick: a third of the family (seed picks the phase) goes through generation + import
             sub = docs if thorough else [d for i, d in enumerate(docs) if (i + chk.seed) % 3 == 0 or any(e["kind"] in ("addl", "allOfReq") for e in d["edges"]) and (i + chk.seed) % 2 == 0]
             judge(chk, observe_import(chk, sub, f"imp[{lab}]"), f"import[{lab}]")
+    # two properties of ONE schema whose keys derive the same class-name stem (`userId` / `user_id`, `a-b` / `a_b`): every pair of
+    # edge kinds that gives a property a model of its own; "reference to the right model" is judged on the imported dataclasses
+    ckinds = ["inline", "arrInline", "map", "oneOf", "ref", "arr"]
+    docs = gen_graphs(chk, ["A", "B"], ckinds, 2, req=(False,))
+    pairs = [d for d in docs if len(d["edges"]) == 2 and d["edges"][0]["from"] == d["edges"][1]["from"]]
+    styles = [{"1": "userId", "2": "user_id"}] + ([{"1": "a-b", "2": "a_b"}, {"1": "Data", "2": "data"}] if thorough else [])
+    cdocs = [dict(d, keys=st) for st in styles for d in pairs]
+    chk.require(len(cdocs) >= 50, "collision family too small")
+    judge(chk, observe_import(chk, cdocs, "imp[collide]"), "import[collide]")
     if thorough:
         docs = gen_graphs(chk, ["A", "B", "C"], ["ref", "arr", "inline", "map", "oneOf", "allOf"], 3, req=(False,))
         judge(chk, observe_ir(chk, docs, "ir[A+B+C,3]"), "ir[A+B+C,<=3]")
@@ -281,6 +296,8 @@ def replay(chk: Check, path: str) -> None:
     rec = json.loads(open(path).read())
     sc = rec["scenario"]
     d = {"order": sc["doc"]["order"], "edges": sc["doc"]["edges"], "inhcycle": False}
+    if sc["doc"].get("keys"):
+        d["keys"] = sc["doc"]["keys"]
     if sc.get("level") == "import":
         judge(chk, observe_import(chk, [d], "replay"), "replay")
     else:
